@@ -236,3 +236,12 @@ mod tests {
         assert_ne!(sym0, sym1);
     }
 }
+
+#[cfg(vhdl_ls_rust_hdl_verif)]
+impl SymbolTable {
+    /// The second half of `insert` / `insert_extended` (taken after `lookup` missed), for harnesses
+    /// that replay a two-thread interleaving step by step.
+    pub fn verif_hooks_insert_new(&self, name: &Latin1String, is_extended: bool) -> Symbol {
+        self.insert_new(name, is_extended)
+    }
+}
